@@ -54,13 +54,16 @@ class Scenario:
     """kinds:
       run        : default; A; run; observe                      expect M(A)
       rerun      : default; A; run; observe; run; observe        expect M(A) twice
+      idem       : default; A; run; observe; run; observe        expect the second observation = the first
+                   (no reference model involved: idempotence alone, for programs whose meaning the
+                   reference semantics does not fix, e.g. equality tests on lattice values)
       push       : default; A; run; B; run; observe              expect M(A u B)
       timeout    : default; A; run_timeout; observe; run_timeout; observe; run; observe
     """
 
     def __init__(self, kind, D=3, dup=False, all_inputs=True, K=64, maxm=None):
         if maxm is None:
-            maxm = {"run": 2, "rerun": 2, "push": 3, "timeout": 3}[kind]
+            maxm = {"run": 2, "rerun": 2, "idem": 2, "push": 3, "timeout": 3}[kind]
         self.kind, self.D, self.dup, self.all_inputs, self.K, self.maxm = kind, D, dup, all_inputs, K, maxm
 
     def describe(self):
@@ -104,7 +107,7 @@ class Scenario:
         if kind == "run":
             ex.run()
             obs.append(("final", ex.observed()))
-        elif kind == "rerun":
+        elif kind in ("rerun", "idem"):
             ex.run()
             obs.append(("run1", ex.observed()))
             ex.run()
@@ -207,7 +210,29 @@ class Scenario:
             qs.append(Query(label + ":" + ("sound" if sound_only else "least_model"), OrL(diffs), "mismatch", label))
             qs.append(Query(label + ":no_duplicate_rows", OrL(dups), "duplicate", label))
 
-        if self.kind in ("run", "push"):
+        def unchanged(o1, o2):
+            diffs = []
+            for rn, r in prog.relmap.items():
+                if r.ds:
+                    continue
+                if r.lattice:
+                    for key in set(o1[rn]) | set(o2[rn]):
+                        s1, s2 = o1[rn].get(key, []), o2[rn].get(key, [])
+                        diffs.append(Xor_(OrL([e for _, e, _ in s1]), OrL([e for _, e, _ in s2])))
+                        for _, e, valts in s2:
+                            for c, v in valts:
+                                same = OrL([And_(e1, c1) for _, e1, v1s in s1 for c1, v1 in v1s if v1 == v])
+                                diffs.append(And_(e, c, Not_(same)))
+                else:
+                    for t in set(o1[rn]) | set(o2[rn]):
+                        p1 = o1[rn].get(t, (False, False, []))[0]
+                        p2 = o2[rn].get(t, (False, False, []))[0]
+                        diffs.append(Xor_(p1, p2))
+            qs.append(Query("run2:unchanged_since_run1", OrL(diffs), "mismatch", "run2"))
+
+        if self.kind == "idem":
+            unchanged(self.obs[0][1], self.obs[1][1])
+        elif self.kind in ("run", "push"):
             equiv("final", self.obs[0][1])
         elif self.kind == "rerun":
             equiv("run1", self.obs[0][1])
@@ -222,6 +247,27 @@ class Scenario:
             equiv("t2_resumed_returned_true", self.obs[1][1], when=And_(rf[0], rt[1]))
             equiv("t2_resumed_returned_false", self.obs[1][1], sound_only=True, when=And_(rf[0], rf[1]))
             equiv("final_after_two_interruptions", self.obs[2][1], when=And_(rf[0], rf[1]))
+        # restricted twins of the queries whose counterexamples may be known findings: the solver returns one
+        # counterexample per query, so a different violation of the same query could hide behind a known one.
+        # The twin excludes the part of the input space the known finding lives in (and must be unsat as well).
+        twins = []
+        if self.kind == "timeout":
+            later = OrL([And_(reach, dvar) for i, (dvar, reach, _c) in enumerate(ctx.deadline_info)
+                         if (ctx.deadline_scc.get(i) or 0) > 0])
+            for q in qs:
+                if q.kind == "mismatch":
+                    twins.append(Query(q.name + "|every_interruption_inside_the_first_stratum", And_(q.cond, Not_(later)), q.kind, q.label))
+        if self.dup:
+            agg_rels = set()
+            for _h, b in L.core_rules(prog):
+                for it in b:
+                    if isinstance(it, L.Agg) and it.agg in ("count", "sum", "mean", "wsum"):
+                        agg_rels.add(it.rel)
+            dupped = OrL([v for (rn, _t), v in self.A.vars2.items() if rn in agg_rels])
+            for q in qs:
+                if q.kind == "mismatch":
+                    twins.append(Query(q.name + "|no_duplicate_in_an_aggregated_relation", And_(q.cond, Not_(dupped)), q.kind, q.label))
+        qs += twins
         kinds = getattr(self, "kinds", None)
         if kinds is not None:
             qs = [q for q in qs if q.kind in kinds]
@@ -251,6 +297,19 @@ class Scenario:
                     return n
         return 0
 
+    def interrupted_sccs(self, asg):
+        """stratum number of the deadline check that fired in each run_timeout call (None = the call completed)"""
+        ctx = self.ex.ctx
+        out = []
+        for call in range(2):
+            hit = None
+            for i, (dvar, reach, cidx) in enumerate(ctx.deadline_info):
+                if cidx == call and eval_b(reach, asg) and eval_b(dvar, asg):
+                    hit = ctx.deadline_scc.get(i)
+                    break
+            out.append(hit)
+        return out
+
     def pin_deadlines(self, asg, ks):
         """extend an input assignment so that the k-th *reached* deadline check of each call fires"""
         ctx = self.ex.ctx
@@ -275,7 +334,7 @@ class Scenario:
         k = self.kind
         if k == "run":
             lines += ["run", "dump"]
-        elif k == "rerun":
+        elif k in ("rerun", "idem"):
             lines += ["run", "dump", "run", "dump"]
         elif k == "push":
             lines += ["run"]
